@@ -5,7 +5,7 @@
    val <condId> <vexpr…>            unfolding of an If condition value
    path <b> <e>                     -> path <b> <e> F <blocks> C <conds|->   |  … N  |  … O
    edge <tag> <sb> <si> <db> <di> <vexpr…>
-                                    -> edge <tag> none | edge <tag> C <conds|-> D <0|1> J <0|1>
+                                    -> edge <tag> none | edge <tag> C <conds|-> D <0|1> J <0|1> R <0|1>
    vc <pol> <vexpr…>                -> vc <0|1>                 (isValidatorCond)
    pred <condId> <vexpr…>           -> pred <0|1>               (isPredTo arg (cond value))
    same <vexpr…> | <vexpr…>         -> same <0|1>               (sameData)
@@ -122,7 +122,7 @@ partial def loop (h : IO.FS.Stream) (acc : PAcc) : IO Unit := do
       (match edgeConds g acc.tbl sb si db di arg (fuelBound g) with
         | none => IO.println s!"edge {tag} none"
         | some cs =>
-          IO.println s!"edge {tag} C {showConds cs} D {b01 (dropEdge acc.tbl cs)} J {b01 (dropJustified g acc.tbl sb db cs)}")
+          IO.println s!"edge {tag} C {showConds cs} D {b01 (dropEdge acc.tbl cs)} J {b01 (dropJustified g acc.tbl sb db cs)} R {b01 (dropJustifiedReg g acc.tbl sb db arg cs)}")
       loop h acc
     | _, _, _, _, _ => bad; loop h acc
   | "vc" :: pol :: rest =>
